@@ -55,7 +55,7 @@ def main():
         res = list(ex.map(lambda d: run(pid, d), [None] + dirs))
     failed = 0
     for name, verdict, rules in res:
-        twin = re.search(r'R\d$', name) is not None
+        twin = re.search(r'R\d+$', name) is not None
         own = name.startswith(pid)
         if name == 'CLEAN' or twin:
             exp = 'holds'
